@@ -11,9 +11,25 @@ import (
 //   - the arms of a union match are listed in alphabetical order of their case, the default last (the cases of a
 //     generated type switch are distinct concrete types: their order is immaterial);
 //   - if(not(C), A, B) is if(C, B, A);
-//   - not((A eq B)) is (A ne B), not((A ne B)) is (A eq B), not(not(X)) is X.
+//   - not((A eq B)) is (A ne B), not((A ne B)) is (A eq B), not(not(X)) is X;
+//   - (A eq B) is (B eq A) (operands in lexicographic order), likewise ne;
+//   - slice.Length is slice.Len; slice.IsNotEmpty(X) is not(slice.IsEmpty(X)); (slice.Len(X) eq 0) is
+//     slice.IsEmpty(X), (slice.Len(X) ne 0) and (slice.Len(X) > 0) are its negation (closed forms decided by C13).
 // It works on the text: brackets are balanced in every printed form and literals are quoted Go-style.
 func canonShape(s string) string {
+	// to a fixed point: a rewrite can expose another (not(slice.IsEmpty(..)) under an if)
+	for k := 0; k < 4; k++ {
+		t := canonShapeOnce(s)
+		if t == s {
+			return t
+		}
+		s = t
+	}
+	return s
+}
+
+func canonShapeOnce(s string) string {
+	s = strings.ReplaceAll(s, "slice.Length(", "slice.Len(")
 	var b strings.Builder
 	i := 0
 	for i < len(s) {
@@ -25,15 +41,24 @@ func canonShape(s string) string {
 			i = j
 			continue
 		}
+		// a grouping parenthesis (infix expression): emptiness tests and the symmetric comparisons
+		if c == '(' && isWordStart(s, i) {
+			if cl := matchingClose(s, i); cl > 0 {
+				inner := canonShapeOnce(s[i+1 : cl])
+				b.WriteString(rebuildInfix(inner))
+				i = cl + 1
+				continue
+			}
+		}
 		if isWordStart(s, i) {
-			for _, kw := range []string{"match(", "if(", "not("} {
+			for _, kw := range []string{"match(", "if(", "not(", "slice.IsNotEmpty("} {
 				if strings.HasPrefix(s[i:], kw) {
 					open := i + len(kw) - 1
 					cl := matchingClose(s, open)
 					if cl < 0 {
 						break
 					}
-					inner := canonShape(s[open+1 : cl])
+					inner := canonShapeOnce(s[open+1 : cl])
 					b.WriteString(rebuild(kw, inner))
 					i = cl + 1
 					goto next
@@ -118,8 +143,46 @@ func splitTop(s string, sep byte) []string {
 	return append(parts, s[start:])
 }
 
+// rebuildInfix: the content of a grouping parenthesis.
+//   (slice.Len(X) eq 0) = slice.IsEmpty(X); (slice.Len(X) ne 0) = (slice.Len(X) > 0) = not(slice.IsEmpty(X));
+//   (A eq B) = (B eq A), (A ne B) = (B ne A): the operands are put in lexicographic order.
+func rebuildInfix(inner string) string {
+	for _, op := range []string{" eq ", " ne ", " > "} {
+		ps := splitTopStr(inner, op)
+		if len(ps) != 2 {
+			continue
+		}
+		a, bb := strings.TrimSpace(ps[0]), strings.TrimSpace(ps[1])
+		isLen := func(x string) (string, bool) {
+			if strings.HasPrefix(x, "slice.Len(") && matchingClose(x, len("slice.Len(")-1) == len(x)-1 {
+				return x[len("slice.Len(") : len(x)-1], true
+			}
+			return "", false
+		}
+		if x, ok := isLen(a); ok && bb == "0" {
+			if op == " eq " {
+				return "slice.IsEmpty(" + x + ")"
+			}
+			return "not(slice.IsEmpty(" + x + "))"
+		}
+		if x, ok := isLen(bb); ok && a == "0" && op != " > " {
+			if op == " eq " {
+				return "slice.IsEmpty(" + x + ")"
+			}
+			return "not(slice.IsEmpty(" + x + "))"
+		}
+		if op != " > " && bb < a {
+			return "(" + bb + op + a + ")"
+		}
+		break
+	}
+	return "(" + inner + ")"
+}
+
 func rebuild(kw, inner string) string {
 	switch kw {
+	case "slice.IsNotEmpty(":
+		return "not(slice.IsEmpty(" + inner + "))"
 	case "match(":
 		parts := splitTop(inner, ';')
 		if len(parts) < 3 {
